@@ -305,8 +305,13 @@ func (r *Rec) Violation(tb testing.TB, sig, kind string, c any, format string, a
 	dup := r.reported[sig] || len(r.reported) >= 5
 	r.reported[sig] = true
 	r.mu.Unlock()
-	if tb != nil {
+	if os.Getenv("VERIF_DEBUG") != "" {
+		fmt.Fprintf(os.Stdout, "DEV %s %s :: %.400s\n", r.Prop, sig, strings.ReplaceAll(msg, "\n", " "))
+	}
+	if tb != nil && !dup {
 		tb.Errorf("%s %s: %s", r.Prop, sig, msg)
+	} else if tb != nil {
+		tb.Fail()
 	}
 	if dup || !r.Active() {
 		return
